@@ -13,3 +13,11 @@ INVARIANT ProbOK
 INVARIANT QueryFrameOK
 INVARIANT EntropyOK
 INVARIANT CtorOK
+INVARIANT StepsValid
+INVARIANT StepsRotOK
+INVARIANT StepsTransformOK
+INVARIANT StepsGateOK
+INVARIANT StepsMeasureOK
+INVARIANT StepsPostselectOK
+INVARIANT StepsCopyOK
+INVARIANT WalkOK
